@@ -10,3 +10,4 @@ import MicroHttp.Props.Tables
 #print axioms MicroHttp.C06.history_prefix_io
 #print axioms MicroHttp.Tables.pending_write_pred
 #print axioms MicroHttp.Tables.no_shared_state
+#print axioms MicroHttp.Tables.no_interior_mutability
